@@ -545,18 +545,20 @@ def _check_fuzzy(ctx, cfg, rr, w, d, p, exp, exp_lev, nontriv, case, mdocs):
     if fo != exp_docs:
         els = set(exp_lev)
         lev_docs = [i for i, t in enumerate(cfg.docs) if t in els]
-        known = [i for i in lev_docs if cfg.docs[i] != ""]
         fcase = dict(case, kind="fuzzy")
-        if fo == known:
-            if lev_docs != exp_docs:
-                ctx.violation(SIG_TRANSP_FUZZY, fcase, exp_docs, fo,
-                              "FuzzyTerm misses documents whose term is one adjacent transposition "
-                              "away (documented Damerau-Levenshtein; every segment is searched with "
-                              "the plain Levenshtein automaton)")
-            if known != lev_docs:
-                ctx.violation(SIG_EMPTYTERM, fcase, exp_docs, fo,
-                              "the empty string is a term within the distance but MultiTerm.matcher "
-                              "drops falsy terms")
+        noempty = [i for i in lev_docs if cfg.docs[i] != ""]
+        if fo == lev_docs:
+            # the recorded finding: exactly the documents of the plain-Levenshtein ball
+            ctx.violation(SIG_TRANSP_FUZZY, fcase, exp_docs, fo,
+                          "FuzzyTerm misses documents whose term is one adjacent transposition "
+                          "away (documented Damerau-Levenshtein; every segment is searched with "
+                          "the plain Levenshtein automaton)")
+        elif fo == noempty:
+            # repaired defect (fix: MultiTerm.matcher no longer skips the empty term): a `fixed` entry
+            # suppresses nothing, so this is reported if it ever comes back
+            ctx.violation(SIG_EMPTYTERM, fcase, exp_docs, fo,
+                          "the empty string is a term within the distance but MultiTerm.matcher "
+                          "drops falsy terms")
         elif fo == "EXC:IndexError" and p > len(w):
             ctx.violation(SIG_PREFIX, fcase, exp_docs, fo, "FuzzyTerm with prefixlength > len(text)")
         elif fo == "EXC:ValueError" and any(MAXCP in t for t in cfg.lex):
